@@ -267,6 +267,7 @@ func genRestart(prop string, seed uint64, tier string) *Scenario {
 // runner
 
 type restartRun struct {
+	snapAt int64 // second at which the state before the latest stop was read
 	w     *World
 	body  *RestartBody
 	h     *History
@@ -541,6 +542,17 @@ func (rr *restartRun) holdEndedAfter(r *ReqRec) bool {
 	return false
 }
 
+// grantedSince: a lock request of that key and LockId was answered SUCCED at or after the given second.
+func (rr *restartRun) grantedSince(k string, lidHex string, since int64) bool {
+	for _, r := range rr.h.order {
+		if r.Op.Cmd == protocol.COMMAND_LOCK && len(r.Replies) > 0 && r.Replies[0].Result == protocol.RESULT_SUCCED && r.Replies[0].T.Unix() >= since &&
+			fmt.Sprintf("%d/%x", r.Op.Db, keyBytes(r.Op.Key)) == k && fmt.Sprintf("%x", lidBytes(r.Op.Lid)) == lidHex {
+			return true
+		}
+	}
+	return false
+}
+
 func (rr *restartRun) everHeld(k string, lidHex string) bool {
 	for _, r := range rr.h.order {
 		if r.Op.Cmd == protocol.COMMAND_LOCK && len(r.Replies) > 0 && r.Replies[0].Result == protocol.RESULT_SUCCED &&
@@ -644,6 +656,12 @@ func (rr *restartRun) compareRecovered(prop string, old, got map[string]*CanonKe
 				w.violate(prop, "never_held_hold", what+": key %s: hold %s is held after the restart but no request for it was ever granted", k, lid[2:6])
 				continue
 			}
+			if rr.grantedSince(k, lid, rr.snapAt) {
+				// a request that was still queued when the state was read (a timer was pending: not a
+				// quiescent moment for that key) and was granted before the process stopped
+				w.probe("holds_granted_between_snapshot_and_stop")
+				continue
+			}
 			bad("spurious_hold", "key %s: hold %s is held after the restart but was not held before the stop", k, lid[2:6])
 		}
 		// the attached value travels with the persisted holds
@@ -669,6 +687,16 @@ func (rr *restartRun) compareRecovered(prop string, old, got map[string]*CanonKe
 	for _, k := range sortedCanonKeys(got) {
 		curKey = k
 		if old[k] == nil && len(got[k].Holds) > 0 {
+			late := true
+			for _, h := range got[k].Holds {
+				if !rr.grantedSince(k, h.Lid, rr.snapAt) {
+					late = false
+				}
+			}
+			if late {
+				w.probe("holds_granted_between_snapshot_and_stop")
+				continue
+			}
 			bad("spurious_hold", "key %s: %d holds after the restart on a key that had none before the stop", k, len(got[k].Holds))
 		}
 	}
@@ -769,6 +797,7 @@ func runRestart(w *World) {
 			if w.res.HarnessErr != "" {
 				return
 			}
+			rr.snapAt = w.now().Unix()
 			ssched.NoPreempt(func() { old = canonSnapshot(node.sl) })
 			w.logf("BEFORE-STOP %s", canonSig(old, true))
 			rr.checkPersistFlags(node, old, w.now().Unix())
